@@ -36,7 +36,7 @@ func ruleUnits(r *Report, id, text string, floor int, sel func(fn string) bool) 
 	for i := range u.Sinks {
 		s := &u.Sinks[i]
 		n := fnName(s.Fn)
-		if sel != nil && !sel(n) {
+		if sel != nil && !sel(n) && !reachedFromSelected(s.Fn, sel) {
 			continue
 		}
 		a := by[n]
